@@ -1,5 +1,5 @@
 (* C07 driver.  Scenario:  <mode> <tbd> <pre> <ntests> { <before> <ipre> <setup> <body> <teardown> <ipost> } <tail>
-     list ::= <n> stmt*n      stmt ::= :a id size kind | :f id | :x | :e n | :i
+     list ::= <n> stmt*n      stmt ::= :a id size kind | :f id | :r id size | :x | :e n | :i
    (mode = how the harness reaches the detector -- 0 local detector handed to the plugin, 1 the global detector through
     new / new [] / malloc -- it does not exist in the model: the observation has to be the same for both).
    Observation: <err> <ntests> { nfail nleak noleaks many total k (num size)^k } <stray> <empty> <noleaks> <many> <total> k (num size)^k *)
@@ -7,6 +7,7 @@ let stmt c =
   match next c with
   | ":a" -> let id = n_tok (next c) in let sz = n_tok (next c) in let k = n_tok (next c) in SAlloc (id, sz, k)
   | ":f" -> SFree (n_tok (next c))
+  | ":r" -> let id = n_tok (next c) in let sz = n_tok (next c) in SRealloc (id, sz)
   | ":x" -> SFail
   | ":e" -> SExpect (n_tok (next c))
   | ":i" -> SIgnore
@@ -29,7 +30,7 @@ let pents es =
 let ptest i = [pn i.ti_fail; pn i.ti_leak; pbool i.ti_noleaks; pbool i.ti_many; pn i.ti_total] @ pents i.ti_entries
 let run_line ts =
   let s = scenario ts in
-  if not (valid s) then raise (Bad "scenario is not valid (block id in use / out of range, or a flag statement outside a test)") else
+  if not (valid s) then raise (Bad "scenario is not valid (block id in use / out of range, realloc of a new/new[] block, or a flag statement outside a test)") else
   let o = run s in
   String.concat " " ([pbool o.o_err; Printf.sprintf "%x" (List.length o.o_tests)] @ List.concat_map ptest o.o_tests
                      @ [pn o.o_stray; pbool o.o_empty; pbool o.o_noleaks; pbool o.o_many; pn o.o_total] @ pents o.o_entries)
